@@ -392,6 +392,16 @@ func runStack(id string, toks []string) (res string) {
 			} else if c != nil {
 				c.UpdateValue(v)
 			}
+		case "TB":
+			// TB:<aid.iid>  the application takes a remote "true" back: its remote-update callback sets the value to false again
+			// (the device could not apply it)
+			if c := w.find(p[1]); c != nil {
+				c.OnValueUpdateFromConn(func(conn net.Conn, c *characteristic.Characteristic, nw, old interface{}) {
+					if b, ok := nw.(bool); ok && b {
+						c.UpdateValue(false)
+					}
+				})
+			}
 		case "GCB":
 			// GCB:<aid.iid>:<value|->  the application installs (removes) a read callback that answers with a fixed value
 			// (hardware that lags behind what was written)
